@@ -47,3 +47,10 @@ Theorem C12_whole_run_ledger : forall w o,
   r_skip r = total nskip_ev (r_parent r).
 Proof. exact run_ledger. Qed.
 Print Assumptions C12_whole_run_ledger.
+
+(* the "tests run" total: without --repeat it is the number of test starts over all processes of the run *)
+From ZT Require Import RunRan.
+Theorem C12_whole_run_tests_run : forall w o, reps o = 1 ->
+  r_ran (run w o) = total nstart_ev (r_parent (run w o)) + sum_children nstart_ev (r_children (run w o)).
+Proof. exact run_ran. Qed.
+Print Assumptions C12_whole_run_tests_run.
